@@ -521,7 +521,9 @@ class Verifier(Executor):
             if t is None:
                 raise VerifError(f"no type for parameter {p}")
             if isinstance(t, dict):
-                st.env[p] = {k: self.fresh_value(v, f"{p}.{k}", st, syms) for k, v in t.items()}
+                def mk(d, prefix):
+                    return {k: (mk(v, f"{prefix}.{k}") if isinstance(v, dict) else self.fresh_value(v, f"{prefix}.{k}", st, syms)) for k, v in d.items()}
+                st.env[p] = mk(t, p)
             else:
                 st.env[p] = self.fresh_value(t, p, st, syms)
         for pname, content in pins.items():
